@@ -134,12 +134,12 @@ def c01_engine(prop, cfg, tier, seed):
         missing = []
         for m in facts["lockTable"]:
             reg = registered.get(m["type"])
-            if reg is not None and m["method"] not in reg and m["inst"] == 0:
+            if reg is not None and m["method"] not in reg and m.get("instance", m.get("inst", 0)) == 0:
                 missing.append(m["type"] + "." + m["method"])
         if missing:
             res["notes"].append("methods in the lock table without a stress registration (decided by the table theorem only): " +
                                 ", ".join(sorted(set(missing))))
-        res["detail"]["lock_table_methods"] = len([m for m in facts["lockTable"] if m["inst"] == 0])
+        res["detail"]["lock_table_methods"] = len([m for m in facts["lockTable"] if m.get("instance", m.get("inst", 0)) == 0])
     except Exception as e:
         res["notes"].append(f"facts.json not readable: {e}")
     res["detail"]["stress_scenarios"] = res["evaluations"]
@@ -187,6 +187,7 @@ def c02_engine(prop, cfg, tier, seed, only=None):
         prog = os.path.join(scratch, "vsyncprog")
         rr = RunResult()
         stats = {}
+        observed = {}
         def one(t):
             lines, prc, err = pipe_run("vsync/" + t, [prog, "-only", t, "-tier", tier], timeout=3400)
             return t, lines, prc, err
@@ -195,13 +196,60 @@ def c02_engine(prop, cfg, tier, seed, only=None):
                 m = re.search(r"VSYNC programs=(\d+) executions=(\d+) histories=(\d+)", err)
                 if m:
                     stats[t] = dict(programs=int(m.group(1)), executions=int(m.group(2)), histories=int(m.group(3)))
+                for lm in re.finditer(r"^LOCKS (\S+) (\S+) (\S+)$", err, re.M):
+                    observed.setdefault((lm.group(1), lm.group(2)), set()).add(lm.group(3))
                 collect(rr, "vsync/" + t, lines, prc, "" if m else err, "vsync/" + t)
         res["runresult"] = rr
         res["detail"]["vsync"] = stats
+        res["detail"]["lock_table_crosscheck"] = crosscheck_lock_table(observed, res, prop)
         res["detail"]["interleavings_executed"] = sum(v["executions"] for v in stats.values())
     finally:
         shutil.rmtree(scratch, ignore_errors=True)
     return res
+
+
+def _modes(pattern):
+    """lock-event pattern of one call -> sequence of section modes ('w' for L..U, 'r' for l..u); None if not well nested"""
+    out, held = [], None
+    for ch in ("" if pattern == "-" else pattern):
+        if ch in "Ll":
+            if held:
+                return None
+            held = "w" if ch == "L" else "r"
+        else:
+            if held != ("w" if ch == "U" else "r"):
+                return None
+            out.append(held); held = None
+    return None if held else out
+
+
+def crosscheck_lock_table(observed, res, prop):
+    """Dynamic validation of the translator: the lock acquisitions every executed call really performed (recorded by
+    the sync shim) must be one of the section sequences the translator extracted for that method from the source."""
+    try:
+        facts = json.load(open(os.path.join(BUILD, "facts.json")))
+    except OSError:
+        return dict(status="no facts.json")
+    table = {}
+    for m in facts["lockTable"]:
+        if m.get("instance", m.get("inst", 0)) == 0:
+            table[(m["type"], m["method"])] = {tuple(s["mode"] for s in (p["sects"] or []) if s["mode"]) for p in (m["paths"] or [])}
+    checked, bad = 0, []
+    for key, pats in sorted(observed.items()):
+        if key not in table:
+            bad.append(f"{key[0]}.{key[1]}: executed but missing from the extracted table")
+            continue
+        for pat in sorted(pats):
+            checked += 1
+            modes = _modes(pat)
+            if modes is None or tuple(modes) not in table[key]:
+                bad.append(f"{key[0]}.{key[1]}: observed lock events {pat} = sections {modes}, extracted paths {sorted(table[key])}")
+    if bad:
+        body = "# property %s: the section table extracted by the translator disagrees with the lock events observed on the\n" \
+               "# real code (sync shim); the table obligations (table_ok / lin_table_ok) no longer speak about this code\n# " % prop + \
+               "\n# ".join(bad[:20]) + "\n"
+        res["violations"].append((write_replay(prop, "unproved", body), " no-failing-input-found"))
+    return dict(status="disagreement" if bad else "ok", method_patterns_checked=checked, disagreements=bad[:10])
 
 
 def c02_replay(path):
